@@ -323,6 +323,50 @@ impl<T> LinkedList<T> {
     }
 }
 
+#[cfg(futures_intrusive_verif)]
+impl<T> ListNode<T> {
+    /// Returns the addresses of the previous and next node (0 = None)
+    pub fn verif_links(&self) -> (usize, usize) {
+        (
+            self.prev.map_or(0, |p| p.as_ptr() as usize),
+            self.next.map_or(0, |p| p.as_ptr() as usize),
+        )
+    }
+}
+
+#[cfg(futures_intrusive_verif)]
+impl<T> LinkedList<T> {
+    /// Returns the addresses of the head and tail node (0 = None)
+    pub fn verif_ends(&self) -> (usize, usize) {
+        (
+            self.head.map_or(0, |p| p.as_ptr() as usize),
+            self.tail.map_or(0, |p| p.as_ptr() as usize),
+        )
+    }
+
+    /// Walks the list from head to tail without modifying it.
+    /// For every node `f(addr, None)` is called first. Only if this returns
+    /// `true` the node gets dereferenced and `f(addr, Some(node))` is called.
+    /// The walk ends when `f` returns `false`.
+    pub unsafe fn verif_walk(
+        &self,
+        f: &mut dyn FnMut(usize, Option<&ListNode<T>>) -> bool,
+    ) {
+        let mut current = self.head;
+        while let Some(node) = current {
+            let addr = node.as_ptr() as usize;
+            if !f(addr, None) {
+                return;
+            }
+            let node_ref = &*(node.as_ptr() as *const ListNode<T>);
+            if !f(addr, Some(node_ref)) {
+                return;
+            }
+            current = node_ref.next;
+        }
+    }
+}
+
 #[cfg(all(test, feature = "alloc"))] // Tests make use of Vec at the moment
 mod tests {
     use super::*;
